@@ -2,7 +2,7 @@
    Only property theorems, each closed by quoting lemmas proved elsewhere, and Print Assumptions.
    Generated from Properties/bodies/C13.v.in by mkprop.py (shared preamble: hdr.txt, sec.txt). *)
 From Coq Require Import Arith NArith Bool List Lia.
-Require Import Canon SemTk CountTk TableProto BddBase BddIte BddCR BddSat BddCof BddCof2 BddCtor BddEval BddPaths BddPathsCount BddReach BddExport BddDot BddMinimal BddTerm Glue Machine Reachable OpSpecs.
+Require Import Canon SemTk CountTk TableProto BddBase BddIte BddCR BddSat BddCof BddCof2 BddCtor BddEval BddPaths BddPathsCount BddReach BddExport BddDot BddMinimal BddTerm BddTerm2 Glue Machine Reachable OpSpecs FuelMono FuelMono2.
 Import ListNotations.
 Local Open Scope N_scope.
 
@@ -49,6 +49,10 @@ Section C13.
     intros HF HI. unfold upto. rewrite seq_S, map_app. cbn [map]. change (1 + n)%nat with (S n).
     exact (count_snoc_indep (map N.of_nat (List.seq 1 n)) F (N.of_nat (S n)) HF HI).
   Qed.
+  (* sat_count always returns: it allocates nothing; fuel above the height of the diagram suffices, in every reachable state *)
+  Theorem C13_sat_count_returns mr f rf n : reachable mr -> liveh mr f rf ->
+    exists bound, forall fuel, (bound <= fuel)%nat -> exists c, mstep fuel mr (HSatCount f n) = Some (mr, ONum c).
+  Proof. exact (satcount_step_returns nhash khash bmask cmask0 smask0 capacity cap_ok mr f rf n). Qed.
 End C13.
 
 Print Assumptions C13_sat_count.
@@ -57,3 +61,4 @@ Print Assumptions C13_length_upto.
 Print Assumptions C13_true_counts_all.
 Print Assumptions C13_inclusion_exclusion.
 Print Assumptions C13_unused_variable_doubles.
+Print Assumptions C13_sat_count_returns.
